@@ -22,7 +22,8 @@ THEOREMS = ["QExPy.C14_derived_nonneg",
             "QExPy.C14_mc_measurement"]
 RULE = ("seeded histories (3-14 requests) over a heap of quantities: Measurement(v[, e]), "
         "Measurement([..][, e | [e..]]), MeasurementArray(error= | relative_error=, number or list), "
-        "XYDataSet(xerr=, yerr=), re-wrapping existing arrays with new uncertainties "
+        "XYDataSet(xerr=, yerr=), array.append / array.insert of numbers, (v, e) pairs and lists of "
+        "pairs, re-wrapping existing arrays with new uncertainties "
         "(MeasurementArray(arr, error=) and XYDataSet(xdata=arr, ydata=arr, xerr=, yerr=)), the "
         "error / relative_error / value setters on single, repeated and derived quantities, the "
         "use_* selectors, arithmetic with quantity / number / (v, e)-pair operands and unary minus, "
@@ -242,6 +243,23 @@ def gen_case(rng, malformed=False, long=False):
                 t.arrays.append([t.push("single", y) for y in ys])
             else:
                 flags.add("neg")
+        elif r < 0.46 and t.arrays and rng.random() < 0.45:
+            # arr.append(x) / arr.insert(i, x) with x a number, a (v, e) pair or a list of pairs:
+            # each new element is built by wrap_in_measurement -> MeasuredValue(v, e)
+            ids = rng.choice(t.arrays)
+            items = []
+            for _ in range(rng.choice([1, 1, 1, 2, 3])):
+                v = sval(rng)
+                e = None if rng.random() < 0.2 else serr(rng, pneg * 1.5)
+                items.append([bits(v), None if e is None else bits(e)])
+            pos = None if rng.random() < 0.6 else rng.randint(0, len(ids))
+            ops.append(["append", list(ids), items, pos])
+            if all(it[1] is None or unbits(it[1]) >= 0 for it in items):
+                new = [t.push("single", unbits(it[0])) for it in items]
+                k = len(ids) if pos is None else pos
+                t.arrays.append(list(ids[:k]) + new + list(ids[k:]))
+            else:
+                flags.add("neg")
         elif r < 0.46 and t.arrays:
             ids = rng.choice(t.arrays)
             if rng.random() < 0.5 or len(t.arrays) < 2:
@@ -383,6 +401,11 @@ def describe(c):
         elif k == "rewrapxy":
             out.append("XYDataSet(xdata=<array h{}>, ydata=<array h{}>{}{})".format(
                 o[1], o[2], fmt_spec(o[3], "xerr"), fmt_spec(o[4], "yerr")))
+        elif k == "append":
+            its = [unbits(v) if e is None else (unbits(v), unbits(e)) for v, e in o[2]]
+            arg = repr(its[0]) if len(its) == 1 else repr(its)
+            out.append("<array h{}>.{}".format(o[1], "append({})".format(arg) if o[3] is None
+                                              else "insert({}, {})".format(o[3], arg)))
         elif k == "seterr":
             out.append("h[{}].error = {!r}".format(o[1], unbits(o[2])))
         elif k == "setrel":
@@ -489,6 +512,18 @@ def observe(q, c):
             def f():
                 q.XYDataSet(xdata=arrays[tuple(o[1])], ydata=arrays[tuple(o[2])],
                             **spec_kwargs(o[3], "xerr"), **spec_kwargs(o[4], "yerr"))
+        elif k == "append":
+            def f():
+                a = arrays[tuple(o[1])]
+                its = [unbits(v) if e is None else (unbits(v), unbits(e)) for v, e in o[2]]
+                arg = its[0] if len(its) == 1 else its
+                res = a.append(arg) if o[3] is None else a.insert(o[3], arg)
+                old_ids = {id(x) for x in a}
+                fresh = [x for x in res if id(x) not in old_ids]
+                pos = len(o[1]) if o[3] is None else o[3]
+                nid = list(range(len(objs), len(objs) + len(fresh)))
+                arrays[tuple(list(o[1][:pos]) + nid + list(o[1][pos:]))] = res
+                new.extend(fresh)
         elif k == "seterr":
             def f():
                 objs[o[1]].error = unbits(o[2])
@@ -557,6 +592,15 @@ def model_line(c, o=None):
             ops.append(["mcmean", op[1], mc.get("samples", [])])
         elif op[0] == "mcmode":
             ops.append(["mcmode", op[1], mc.get("counts", []), mc.get("edges", []), op[2]])
+        elif op[0] == "append":
+            # every new element goes through MeasuredValue(v, e) (a bare number: e = 0); a list is
+            # all-or-nothing, like the array constructor with per-element uncertainties
+            zero = bits(0.0)
+            its = [[v, zero if e is None else e] for v, e in op[2]]
+            if len(its) == 1:
+                ops.append(["meas", its[0][0], its[0][1]])
+            else:
+                ops.append(["array", [v for v, _ in its], ["each", [e for _, e in its]]])
         else:
             ops.append(op)
     return {"cmd": "c14", "ops": ops}
